@@ -81,13 +81,17 @@ func (s *subscriptionImpl) Add(teardown Teardown) {
 	}
 
 	s.mu.Lock()
-	defer s.mu.Unlock()
 
 	if s.done {
+		// The lock is released first: the teardown may use this subscription again.
+		s.mu.Unlock()
 		teardown() // not protected against panics
-	} else {
-		s.finalizers = append(s.finalizers, teardown)
+
+		return
 	}
+
+	s.finalizers = append(s.finalizers, teardown)
+	s.mu.Unlock()
 }
 
 // AddUnsubscribable merges multiple subscriptions into one. The method does nothing
